@@ -265,3 +265,67 @@ Theorem C11_source_get_clearance n (floats : list CL.pfloat) c py cm :
     (fun _ => False).
 Proof. exact (CL.gen_get_clearance_linked n floats c py cm). Qed.
 Print Assumptions C11_source_get_clearance.
+
+(* ---- the `while True:` loop of avoid_collisions (weasyprint/layout/float.py) REGENERATED from the source
+   (GenFloat.avoid_loop_body): for every list of placed floats (abstract, read through sh_of), every box width /
+   height / margins, containing block, flag `outer` and start position, if the interpreter's loop fuel exceeds
+   the number of floats the loop ends by `break` (the body falls off its end: no exception, no fuel exhaustion)
+   and leaves in position_y, max_left_bound, max_right_bound the components of the model's avoid_loop run with
+   fuel (number of floats + 1): position_y exactly, the bounds up to == (the source computes
+   max(max(left_bounds), default), the model folds Qmax from the default).  So C11_avoid_collisions_terminates,
+   C11_float_no_overlap, ... are about the source loop.  shape.margin_height() / shape.margin_width() /
+   containing_block.content_box_x() are call oracles here and the regenerated Box methods in the _linked form. *)
+Require WV.proofs.PyNatural WV.proofs.C11_gen_avoid.
+Module AV := WV.proofs.C11_gen_avoid.
+
+Theorem C11_source_avoid_loop T (sh_of : T -> shape) extra O (HO : Py.ops_ok O)
+    (HMH : forall t, Py.ocall O ".margin_height"%string [AV.vshape T sh_of extra t] = Py.VNum (s_h (sh_of t)))
+    (HMW : forall t, Py.ocall O ".margin_width"%string [AV.vshape T sh_of extra t] = Py.VNum (s_w (sh_of t)))
+    (shapes : list T) (bw bh ml mr cbw cbx : Q) xb xc (outer : bool)
+    (HCB : Py.ocall O ".content_box_x"%string [AV.vcb cbw xc] = Py.VNum cbx) (y0 : Q) :
+  (List.length shapes < Py.wfuel O)%nat ->
+  Py.run O GenFloat.avoid_loop_body
+    [("excluded_shapes"%string, Py.VList (map (AV.vshape T sh_of extra) shapes)); ("position_y"%string, Py.VNum y0);
+     ("box_width"%string, Py.VNum bw); ("box_height"%string, Py.VNum bh); ("box"%string, AV.vbox ml mr xb);
+     ("containing_block"%string, AV.vcb cbw xc); ("outer"%string, Py.VBool outer)]
+    (fun rho r =>
+       r = None /\
+       exists y mlb mrb,
+         avoid_loop (S (List.length shapes)) (map sh_of shapes)
+           (if outer then cbx else cbx + ml) (if outer then cbx + cbw else cbx + cbw - mr) bw bh y0 = Some (y, mlb, mrb) /\
+         Py.lookup "position_y" rho = Py.VNum y /\
+         exists a b, Py.lookup "max_left_bound" rho = Py.VNum a /\ a == mlb /\
+                     Py.lookup "max_right_bound" rho = Py.VNum b /\ b == mrb)
+    (fun _ => False).
+Proof. exact (AV.gen_avoid_loop T sh_of extra O HO HMH HMW shapes bw bh ml mr cbw cbx xb xc outer HCB y0). Qed.
+Print Assumptions C11_source_avoid_loop.
+
+(* termination of the real `while True:` and absence of exceptions: with loop fuel above the number of floats the
+   run's outcome is normal, off the end of the body - never the error "FuelExhausted" nor any other *)
+Theorem C11_source_avoid_loop_terminates T (sh_of : T -> shape) extra O (HO : Py.ops_ok O)
+    (HMH : forall t, Py.ocall O ".margin_height"%string [AV.vshape T sh_of extra t] = Py.VNum (s_h (sh_of t)))
+    (HMW : forall t, Py.ocall O ".margin_width"%string [AV.vshape T sh_of extra t] = Py.VNum (s_w (sh_of t)))
+    (shapes : list T) (bw bh ml mr cbw cbx : Q) xb xc (outer : bool)
+    (HCB : Py.ocall O ".content_box_x"%string [AV.vcb cbw xc] = Py.VNum cbx) (y0 : Q) :
+  (List.length shapes < Py.wfuel O)%nat ->
+  (exists rho', PyNatural.run_out O GenFloat.avoid_loop_body
+                  (AV.loop_env T sh_of extra shapes y0 bw bh ml mr cbw xb xc outer) = PyNatural.ONorm rho' None) /\
+  (forall m, PyNatural.run_out O GenFloat.avoid_loop_body
+               (AV.loop_env T sh_of extra shapes y0 bw bh ml mr cbw xb xc outer) <> PyNatural.OErr m).
+Proof. exact (AV.gen_avoid_loop_terminates T sh_of extra O HO HMH HMW shapes bw bh ml mr cbw cbx xb xc outer HCB y0). Qed.
+Print Assumptions C11_source_avoid_loop_terminates.
+
+(* nothing left abstract but the floats: margin_height / margin_width / content_box_x (and the border / padding ones they call)
+   are the Box methods regenerated from formatting_structure/boxes.py, any loop fuel N above the number of floats *)
+Theorem C11_source_avoid_loop_linked n N (floats : list AV.pfloat) (bw bh ml mr : Q) (c : AV.cblock) xb (outer : bool)
+    (y0 : Q) :
+  (List.length floats < N)%nat ->
+  Py.run (AV.linkedN n N) GenFloat.avoid_loop_body
+    (AV.loop_env AV.pfloat AV.pf_shape AV.pf_extra floats y0 bw bh ml mr (AV.cb_w c) xb (AV.cb_fields c) outer)
+    (AV.loop_post (avoid_loop (S (List.length floats)) (map AV.pf_shape floats)
+                     (if outer then AV.content_box_x_of c else AV.content_box_x_of c + ml)
+                     (if outer then AV.content_box_x_of c + AV.cb_w c else AV.content_box_x_of c + AV.cb_w c - mr)
+                     bw bh y0))
+    (fun _ => False).
+Proof. exact (AV.gen_avoid_loop_linked n N floats bw bh ml mr c xb outer y0). Qed.
+Print Assumptions C11_source_avoid_loop_linked.
